@@ -212,12 +212,13 @@ def check(ctx):
             # datasets with structure a shortcut might key on: displacements measured from their mean over the snapshots (every
             # component sums to zero, yet not symmetric under u -> -u), triples {u, -u/2, -u/2}, and true +/- pairs
             raw = rng.normal(size=(n, P.N, 3)) * 0.1
-            u_ = rng.normal(size=(n // 3 + 1, P.N, 3)) * 0.1
-            h_ = rng.normal(size=(n // 2 + 1, P.N, 3)) * 0.1
+            u_ = rng.normal(size=(n, P.N, 3)) * 0.1          # n independent patterns each: the copies -u/2 (or -u) add no rank for even orders
+            h_ = rng.normal(size=(n, P.N, 3)) * 0.1
             for sname, d_s in (("centred", raw - raw.mean(axis=0)), ("zero-sum-triples", np.concatenate([u_, -u_ / 2, -u_ / 2])), ("plus-minus-pairs", np.concatenate([h_, -h_]))):
                 Xs = dense_design(P.basis, orders, d_s)
                 svs = np.linalg.svd(Xs, compute_uv=False)
-                if svs[-1] < 1e-8 * svs[0]:
+                if svs[-1] < 1e-3 * svs[0]:
+                    # recovery to 1e-6 through the normal equations needs cond(X)^2 * 1e-16 << 1e-6
                     ctx.count("skipped-ill-conditioned")
                     continue
                 f_s = forces_from_fc(truth, d_s)
